@@ -23,8 +23,16 @@ import (
 func TestC45(t *testing.T) {
 	m := mon.New(t, "C45")
 	defer m.Done()
-	m.Rule("case = (corpus item, packet-aware mutation operator(s), entry point, keyring ∈ {empty, public, public+secret, hostile = ReadKeyRing(mutated bytes)}, prompt ∈ {nil, right, wrong, none, error}, read-buffer size); corpus built at run time from gpg-made constants, hex/armored constants extracted from /repo/openpgp/**/*_test.go and deterministic fresh messages for every packet type; streams: 'baseline' (every corpus item unmutated through its natural entry points), 'directed' (hand-built boundary inputs: header forms, partial-length chains, MDC trailer/length boundaries × buffer sizes, forged session keys, nesting depths, armor/clearsign edge lines), 'truncation' (seed-independent: for every length encoding — packet new-format 1/2/5-octet and partial lengths, old-format 1/2/4-octet, signature subpacket 1/2/5-octet lengths in the hashed and the unhashed area, the signature's own area lengths, MPI bit-length prefixes, S2K specifiers, user-attribute subpacket lengths, ECC OID / ECDH KDF / literal file-name lengths — the enclosing area ends after exactly 0..k-1 bytes of the k-byte field or right after it with no body; signatures are presented detached, armored, on keys, in one-pass and signature-first messages, inside compression and as embedded signatures; packet headers also inside compressed and encrypted containers) and 'mutation' (PRNG-chosen operator per case). Oracle: panic monitor (recover per case; key panic:<entry point>:<top x/crypto frame>) + termination monitor (input reader and output sink count bytes; hung only if 4 goroutine dumps 10 s apart show the case goroutine running inside x/crypto frames with both counters frozen, or a reader returns (0,nil) 2^20 times in a row with no input consumed). distinct key = entry|kind|operator|outcome class; non-trivial = the entry point was executed on the input")
+	m.Rule("case = (corpus item, packet-aware mutation operator(s), entry point, keyring ∈ {empty, public, public+secret, hostile = ReadKeyRing(mutated bytes)}, prompt ∈ {nil, right, wrong, none, error}, read-buffer size); corpus built at run time from gpg-made constants, hex/armored constants extracted from /repo/openpgp/**/*_test.go and deterministic fresh messages for every packet type; streams: 'baseline' (every corpus item unmutated through its natural entry points), 'directed' (hand-built boundary inputs: header forms, partial-length chains, MDC trailer/length boundaries × buffer sizes, forged session keys, nesting depths, armor/clearsign edge lines), 'truncation' (seed-independent: for every length encoding — packet new-format 1/2/5-octet and partial lengths, old-format 1/2/4-octet, signature subpacket 1/2/5-octet lengths in the hashed and the unhashed area, the signature's own area lengths, MPI bit-length prefixes, S2K specifiers, user-attribute subpacket lengths, ECC OID / ECDH KDF / literal file-name lengths — the enclosing area ends after exactly 0..k-1 bytes of the k-byte field or right after it with no body; signatures are presented detached, armored, on keys, in one-pass and signature-first messages, inside compression and as embedded signatures; packet headers also inside compressed and encrypted containers) 'mutation' (PRNG-chosen operator per case) and 'concurrent' (one shared EntityList/Entity with keys decrypted beforehand used by 4-8 barrier-started goroutines for ReadMessage decrypt+verify, CheckDetachedSignature, DetachSign, Encrypt→ReadMessage, clearsign→verify, and ReadKeyRing/ReadArmoredKeyRing/armor.Decode/armor.Encode/packet.Read on distinct yielding readers over shared read-only bytes; every result must equal the single-threaded result of the same call; every fourth group under GOMAXPROCS(1); the same stream runs alone in the -race build variant; interleavings are scheduler-chosen). Oracle: panic monitor (recover per case; key panic:<entry point>:<top x/crypto frame>) + termination monitor (input reader and output sink count bytes; hung only if 4 goroutine dumps 10 s apart show the case goroutine running inside x/crypto frames with both counters frozen, or a reader returns (0,nil) 2^20 times in a row with no input consumed). distinct key = entry|kind|operator|outcome class; non-trivial = the entry point was executed on the input")
 	m.Assume("Go runtime panic/stack reporting; goroutine dumps name the case goroutine (pgp2.c45CaseBody); output above 64 MiB is a legitimate compression bomb (class 'capped', not judged); the documented endless re-prompting of ReadMessage is bounded by the harness prompt (error after 2 calls, counted)")
+	if mon.RaceBuild {
+		// race-detector variant: only the shared-value concurrency stream, in batch 0
+		if m.Batch() == 0 {
+			c45ConcurrentStreams(m, buildCorpus())
+			c45ConcurrentGates(m)
+		}
+		return
+	}
 	cp := buildCorpus()
 	for _, n := range cp.notes {
 		m.Note(n)
@@ -114,6 +122,10 @@ func TestC45(t *testing.T) {
 			m.Sample(map[string]any{"stream": "mutation", "entry": in.Entry, "kind": kind, "op": op, "ring": in.Ring, "prompt": in.Prompt, "buf": in.Buf, "input": mon.Hex(in.Data), "outcome": out.Class})
 		}
 	})
+
+	// ---- shared-value concurrency (also run alone under the race detector) ----
+	c45ConcurrentStreams(m, cp)
+	c45ConcurrentGates(m)
 
 	m.Gate("baseline_signatures_verified", 10, "valid signed corpus items verify end to end (the harness reaches the verification code)")
 	m.Gate("baseline_messages_decrypted", 10, "valid encrypted corpus items decrypt with the harness keyring/prompt and are read to EOF")
